@@ -158,6 +158,59 @@ def build(tier="quick", seed=0):
         pack.add(Obligation(name, lambda tier, name=name, th=th, judge=judge: prove_paths(name, th, judge, lambda m, p: {"x": model_value(m, x) if m is not None else 0}),
                             replay=lambda w, src_t=src_t, dst_t=dst_t: {"call": "c05_cross_value", "args": {"src_type": src_t, "dst_type": dst_t, "x": w.get("x") or 0}}, functions=FU))
 
+    # ---- A2b. assignment through a grouped record is an assignment to the member that owns the field: same conversion, same range check
+    for typename, hi in (("uint16", 0xFFFF), ("boolean", 1)):
+        name = f"C05.range[{typename}, assigned through a grouped record]"
+
+        def th(typename=typename):
+            A = it.call(RD, ["c05/ma", [(typename, "x"), ("string", "s")]], {})
+            B = it.call(RD, ["c05/mb", [("varint", "k")]], {})
+            member = it.call(A, [], {"s": "t"})
+            g = it.call(base.g["GroupedRecord"], ["c05/grp", [member, it.call(B, [], {"k": 1})]], {})
+            before = snapshot(member)
+            try:
+                it.setattr_(g, "x", SInt(x))
+                it.setattr_(g, "s", b"by\xfftes")
+                return "accepted", well_typed(member, "x", typename) or well_typed(member, "s", "string"), packable(member), member
+            except PyRaise as e:
+                return "rejected", e.cls_name, snapshot(member) == before, member
+
+        def judge(p, hi=hi, typename=typename):
+            r = p.value
+            if r[0] == "accepted":
+                if r[1] or r[2]:
+                    return False, f"value accepted through the grouped record is not well typed / packable: {r[1] or r[2]}"
+                return z3.And(x >= 0, x <= hi, it.zint(r[3].attrs["x"]) == x), f"{typename} accepted a value outside 0..{hi} through a grouped record (or stored a different value)"
+            return z3.And(z3.Or(x < 0, x > hi), z3.BoolVal(bool(r[2]))), f"{typename} rejected a representable value through a grouped record, or the rejected assignment changed the member (unchanged: {r[2]})"
+
+        pack.add(Obligation(name, lambda tier, name=name, th=th, judge=judge: prove_paths(name, th, judge, lambda m, p: {"x": model_value(m, x) if m is not None else 0}),
+                            replay=lambda w, typename=typename: {"call": "c05_grouped_assign", "args": {"ftype": typename, "x": w.get("x") or 0}}, functions=FU))
+
+    # ---- A2c. the outcome for a candidate does not depend on what was offered before: a float is not an address, also after the equal integer was accepted
+    for typename, first, second in (("net.ipaddress", "167772161", "167772161.0"), ("net.ipaddress[]", "167772161", "167772161.0"), ("net.ipnetwork", "'10.0.0.0/8'", "b'10.0.0.0/8' + b''")):
+        name = f"C05.history[{typename}: {first} accepted, then {second}]"
+
+        def th(typename=typename, first=first, second=second):
+            D = it.call(RD, ["c05/rec", [(typename, "x"), ("varint", "n")]], {})
+            lst = typename.endswith("[]")
+            a, b = it.call(D, [], {"n": 1}), it.call(D, [], {"n": 2})
+            it.setattr_(a, "x", [pyvalue(first)] if lst else pyvalue(first))
+            fresh_outcome = None
+            try:
+                it.setattr_(b, "x", [pyvalue(second)] if lst else pyvalue(second))
+                v = b.attrs["x"]
+                return "accepted", well_typed(b, "x", typename), packable(b)
+            except PyRaise as e:
+                return "rejected", None, None
+
+        def judge(p, second=second, typename=typename):
+            r = p.value
+            if second.endswith(".0"):
+                return r[0] == "rejected", f"{typename} accepted the float {second} after the equal integer had been accepted (a float is not an address)"
+            return r[0] == "rejected" or not (r[1] or r[2]), f"after an earlier assignment: {r}"
+
+        pack.add(Obligation(name, lambda tier, name=name, th=th, judge=judge: prove_paths(name, th, judge, lambda m, p: {}), replay=lambda w, typename=typename, first=first, second=second: {"call": "c05_history_pair", "args": {"ftype": typename, "first": first, "second": second}}, functions=FU, mode="representative pairs of equal-but-different candidates"))
+
     # ---- A3. a number that is not an integer offered to an integer-valued field: converted to an integer or rejected - never kept as it is
     for typename, src, must_reject in (("uint16", "1.5", False), ("uint32", "2.5", False), ("net.tcp.Port", "80.5", False), ("uint16", "80.0", False), ("boolean", "0.5", True), ("boolean", "1.0", False), ("uint16[]", "1.5", False), ("uint16", "65535.5", True)):
         name = f"C05.nonintegral[{typename} <- {src}]"
